@@ -542,12 +542,21 @@ Definition sort_lines (l : list (list Z)) : list (list Z) := fold_right insert_l
 Definition is_header_var (n : list Z) : bool :=
   str_eqb n n_request_headers || str_eqb n n_response_headers || str_eqb n n_retry_headers.
 
+(* two header dumps: byte-exact up to the order of their "\n"-terminated lines
+   (the piece after the last "\n" - empty in a dump - is compared on its own, so
+   a dump that misplaces or lacks the final terminator differs) *)
+Definition dump_eqb (x y : list Z) : bool :=
+  let px := split_on 10 x in
+  let py := split_on 10 y in
+  str_eqb (last px []) (last py [])
+  && strs_eqb (sort_lines (removelast px)) (sort_lines (removelast py)).
+
 Definition value_eqb (hdr : bool) (a b : value) : bool :=
   match a, b with
   | VBool x, VBool y => Bool.eqb x y
   | VInt x, VInt y => x =? y
   | VStr x, VStr y =>
-      if hdr then strs_eqb (sort_lines (split_on 10 x)) (sort_lines (split_on 10 y))
+      if hdr then dump_eqb x y
       else str_eqb x y
   | VBytes x, VBytes y => str_eqb x y
   | _, _ => false
